@@ -89,7 +89,7 @@ def gen_request(rng, jtis):
         has_key, has_sec = cid in ("cB", "cC", "cE"), cid != "cC"
         good = (["own_key"] * 4 if has_key else []) + (["own_hs"] * 4 if has_sec else [])
         r["assertion"] = {"kind": rng.choice(good + ASSERT_KINDS), "aud": rng.choice(["endpoint"] * 5 + AUD_KINDS), "exp": rng.choice(["ok"] * 5 + ["expired", "absent"]),
-                          "jti": jti, "jti_val": (rng.choice(jtis) if (jti == "reuse" and jtis) else "j%06d" % rng.randrange(10**6)) if jti != "none" else None}
+                          "sub": rng.choice(["iss", "iss", "other", "absent"]), "jti": jti, "jti_val": (rng.choice(jtis) if (jti == "reuse" and jtis) else "j%06d" % rng.randrange(10**6)) if jti != "none" else None}
         if r["assertion"]["jti_val"]:
             jtis.append(r["assertion"]["jti_val"])
         if rng.random() < 0.15:
@@ -185,7 +185,12 @@ def build(E, r, cache=None, idx=None):
             alg = "none"; signer = None
         aud = {"endpoint": [E.url[r["ep"]]], "issuer": [E.issuer], "wrong": ["https://evil.example/token"],
                "list_with_endpoint": ["https://x.example", E.url[r["ep"]]], "other_endpoint": [E.url["introspection" if r["ep"] != "introspection" else "token"]]}[a["aud"]]
-        payload = {"aud": aud, "sub": iss}
+        payload = {"aud": aud}
+        _sub = a.get("sub", "iss")
+        if _sub == "iss":
+            payload["sub"] = iss
+        elif _sub == "other":
+            payload["sub"] = "cA" if iss != "cA" else "cB"       # a valid assertion by one client naming another as subject
         if a["jti_val"]:
             payload["jti"] = a["jti_val"]
         lifetime = {"ok": 600, "expired": -100, "absent": 0}[a["exp"]]
